@@ -10,6 +10,7 @@ import Goyang.Lemmas.TypesFdRfc
 import Goyang.Lemmas.TypesPartOf
 import Goyang.Lemmas.TypesWellLinked
 import Goyang.Lemmas.TypesAgreeFull
+import Goyang.Lemmas.TypesRangeRfc
 /-
 C09 — type names bind lexically and derived types inherit the whole chain.
 
@@ -73,19 +74,54 @@ What is proved (all for unbounded inputs):
   `table` of RFC 7950 sections 9.6.4.2 / 9.7.4.2 give the written members, through C14's `text_fold`;
   Lemmas/TypesEnumRfc.lean), `resolve_fd_rfc` (the fraction-digits of an error-free resolution are the
   written integer, which lies in 1 … 18, through C15's `asRangeInt_exact`; Lemmas/TypesFdRfc.lean).
-Not proved / outside: the remaining side conditions `typeOk` are stated with the sub-models' functions
-(`Range.applyRange` / `applyLength`, `Identity.findIdentityBase`), whose own specifications are
-the subject of C10 / C11; for a reference outside the claim (`¬ InsideClaim`: one of the six
-features is met below it, exactly the `noClaim` answers) the executable specification claims
-nothing — the relational theorems (`resolve_errors_iff` …) still apply wherever `UnambiguousBelow`
-holds; the executable specification's own reading of enum values (`assignValues`) is not tied to
-`Spec.Enum.assign`; that `linkOk` / `PartOfSchema` imply the executable `wellLinked` / `partOfSchema`
-is not proved (`specResolve_noClaim_iff` keeps them as cases); a reference in a submodule nobody
-includes is outside the claim (`PartOfSchema`), as in the executable specification.
+* the executable specification's own reading of enum values / bit positions tied to the RFC assignment
+  of property C14: `assignValues_table` (an answer of `assignValues` is `Spec.Enum.table` of the members
+  read as integers, names pairwise different, values in range), `assignValues_eq_assign_bits` (it IS
+  `Spec.Enum.assign .bits`), `assignValues_eq_assign_enum` (it is `Spec.Enum.assign .enumeration` up to
+  the uniqueness of values, which the executable specification checks in `chainInClaim`)
+  (Lemmas/TypesAssignDefs.lean, TypesAssign.lean);
+* full agreement: `AgreesWithFull` (= `AgreesWith` + enum table + bit table + fraction-digits) and
+  `resolve_verdict_inside_claim_full`: inside the claim an error-free resolution agrees with
+  `inherit k ls` in every attribute, nearest definition winning along the chain — for chains whose
+  integer arguments (`value`, `position`, `fraction-digits`) are canonically written (`CanonArgs` /
+  `CanonInt`: optional `-`, decimal digits, no superfluous leading zero; Lemmas/TypesStrBridge.lean ties
+  core Lean's `String.toNat!` / `toNat?` / `toUTF8` to the literals of C14 / C15, Lemmas/TypesAssignFold.lean
+  and TypesAgreeFull.lean do the rest).  The hypothesis cannot be dropped:
+  `Ex.noncanonical_value_disagrees` (`value 010` is 8 for the model and for Go — `ParseInt` with base 0 —
+  and 10 for `parseIntLit`; replayed on the Go code);
+* `linkOk` / `PartOfSchema` against the Bool checks of the executable specification, for registries
+  produced by loading (`Goyang.Lemmas.Bridge.TablesOK`; `loaded_tables_ok`, `loaded_texts_tables_ok`):
+  `modules_entries_nonsub` (the registry invariant: entries of `ms.Modules` are loaded non-submodules),
+  `partOfSchema_of_PartOfSchema`, `linkOk_resolved` (after an error-free `Process` every include / import
+  of every part of a schema names a loaded (sub)module), `wellLinked_of_linkOk` (when every loaded
+  (sub)module is part of a schema), `wellLinked_iff_of_linkOk` (in general: exactly up to the dangling
+  includes / imports of (sub)modules that belong to no schema), `wellLinked_of_linkOk_fails` (the
+  unrestricted implication is FALSE: a submodule nobody includes with an unresolved import — `Process`
+  reports nothing, replayed on the Go code), and `specResolve_noClaim_iff_loaded`
+  (`specResolve_noClaim_iff` without the cases `wellLinked` / `partOfSchema` and without `SeqId`)
+  (Lemmas/TypesPartOf.lean, TypesWellLinked.lean);
+* the range / length side condition tied to property C10's specification: `resolve_range_denotes` (the
+  range of an error-free resolution of a numeric type is reached from the built-in range of its kind by
+  the `range` statements of the chain, each an accepted step `Goyang.Props.C10.StepOk`: denotes exactly
+  the written set relative to the one before it, sorted / disjoint / coalesced, within it),
+  `resolve_range_within_base`, `resolve_length_denotes` (Lemmas/TypesRangeRfc.lean).
+Not proved / outside: the identityref side condition of `typeOk` is stated with the sub-model's function
+(`Identity.findIdentityBase`), whose own specification is the subject of C11; for a reference outside the
+claim (`¬ InsideClaim`: one of the six features is met below it, exactly the `noClaim` answers) the
+executable specification claims nothing — the relational theorems (`resolve_errors_iff` …) still
+apply wherever `UnambiguousBelow` holds; `AgreesWithFull` is proved for canonically written integer
+arguments only (outside that form the two readings genuinely differ, see above) and does not compare
+union members (`resolve_members` / `spec_exec_members` speak about them separately); a non-vacuity
+example of `resolve_verdict_inside_claim_full` with explicit `value` / `fraction-digits` arguments is not
+given as one kernel evaluation, because the kernel cannot evaluate `String.toNat!` inside `chainOf`
+(the pieces are shown: `Ex.canon_tyN` for members without values, `CanonInt "3"`, `parseIntLit "010"`);
+a reference in a submodule nobody includes is outside the claim (`PartOfSchema`), as in the executable
+specification.
 Helper lemmas: Goyang/Lemmas/Types*.lean.
 -/
 namespace Goyang.Props.C09
-open Goyang.Model Goyang.Model.Types Goyang.Spec.Types Goyang.Lemmas.Types
+open Goyang.Model hiding Env
+open Goyang.Model.Types Goyang.Spec.Types Goyang.Lemmas.Types
 open Goyang.Lemmas.TypesDefs Goyang.Lemmas.TypesComplete Goyang.Lemmas.TypesRestr Goyang.Lemmas.TypesAdm
 open Goyang.Lemmas.TypesSpecBind Goyang.Lemmas.TypesSpecChain Goyang.Lemmas.TypesSpecErr
 open Goyang.Lemmas.TypesWf Goyang.Lemmas.TypesWfMain
@@ -1271,8 +1307,54 @@ theorem resolve_verdict_inside_claim_full (reg : Registry) (hok : linkOk reg = t
     obtain ⟨_, e1⟩ := spec_exec_chain_unique reg root scope t k1 k c1 chain' hU hd1 hder'
     obtain ⟨_, e2⟩ := spec_exec_chain_unique reg root scope t k2 k c2 chain' hU hd2 hder'
     subst e1 e2
-    have hc' := hcanon k c1 hder'
+    have hc' := hcanon k _ hder'
     exact ⟨hag y hy0, enum_agree k hfor hc' hen hE, bit_agree k hfor hc' hbi hB, fd_agree k hfor hc' hfd hF⟩
+
+/-! ## The range / length side condition tied to property C10's specification
+
+`Inherits` / `AgreesWith` do not speak about `range` and `length`: their meaning is the subject of
+property C10 (`Goyang.Props.C10.StepOk`: an accepted restriction denotes exactly the set written, `min` /
+`max` being the bounds of the set before it, is sorted, disjoint and coalesced, and lies within the set
+before it).  Lemmas/TypesRangeRfc.lean follows the resolution along the derivation chain. -/
+
+/-- **The range of an error-free resolution denotes the written sets, narrowing along the chain.**  An
+error-free resolution went along a derivation chain ending in the built-in `kind`; if `kind` is numeric
+(`BaseOf`: the eight integer types at scale `(false, 0)` with their built-in ranges; decimal64 at
+`(true, f)`, `f` the fraction-digits of the resolved type, from `decimalBase f`) then the range of the
+resolved type is reached from the built-in range by the `range` statements of the chain's type
+statements, farthest first, each an accepted step in the sense of C10 (`RangeSteps` of `StepOk`), and is
+again a legitimate non-empty parent. -/
+theorem resolve_range_denotes (env : Env) (fuel : Nat) (root : Mod) (scope : List Stmt) (t : Stmt)
+    (stack : List TypeKey) (y : YType) (ht : scopeKinds.contains t.kw = false)
+    (h : resolveTypeF env fuel root scope t stack = { ty := some y, errs := [] }) :
+    ∃ kind chain, DerivesFrom env.reg root scope t kind chain ∧ y.kind = kind ∧
+      ∀ dec f base, Goyang.Lemmas.TypesRangeRfc.BaseOf kind y.fractionDigits dec f base →
+        Goyang.Props.C10.IsBase dec f base ∧
+        Goyang.Lemmas.TypesRangeRfc.RangeSteps dec f base (Goyang.Lemmas.TypesRangeRfc.chainRanges chain).reverse y.range ∧
+        Goyang.Lemmas.Range.ParentOk f y.range ∧ y.range ≠ [] :=
+  Goyang.Lemmas.TypesRangeRfc.resolve_chain_range env fuel root scope t stack y ht h
+
+/-- … hence it denotes a subset of the built-in range of its kind. -/
+theorem resolve_range_within_base (env : Env) (fuel : Nat) (root : Mod) (scope : List Stmt) (t : Stmt)
+    (stack : List TypeKey) (y : YType) (ht : scopeKinds.contains t.kw = false)
+    (h : resolveTypeF env fuel root scope t stack = { ty := some y, errs := [] })
+    (dec : Bool) (f : Nat) (base : Goyang.Model.Range.YangRange)
+    (hb : Goyang.Lemmas.TypesRangeRfc.BaseOf y.kind y.fractionDigits dec f base) :
+    Goyang.Spec.Range.Within (Goyang.Lemmas.Range.abs y.range) (Goyang.Lemmas.Range.abs base) :=
+  Goyang.Lemmas.TypesRangeRfc.resolve_range_within_base env fuel root scope t stack y ht h dec f base hb
+
+/-- **… and the same for `length`**, whatever the kind: the length of the resolved type is reached from
+`0..2^64-1` by the `length` statements of the chain (each an accepted step in the sense of C10); it is
+empty exactly when the chain states no length. -/
+theorem resolve_length_denotes (env : Env) (fuel : Nat) (root : Mod) (scope : List Stmt) (t : Stmt)
+    (stack : List TypeKey) (y : YType) (ht : scopeKinds.contains t.kw = false)
+    (h : resolveTypeF env fuel root scope t stack = { ty := some y, errs := [] }) :
+    ∃ kind chain, DerivesFrom env.reg root scope t kind chain ∧
+      Goyang.Lemmas.TypesRangeRfc.RangeSteps false 0 Goyang.Model.Range.uint64Range
+        (Goyang.Lemmas.TypesRangeRfc.chainLengths chain).reverse
+        (if y.length.isEmpty then Goyang.Model.Range.uint64Range else y.length) ∧
+      Goyang.Lemmas.Range.ParentOk 0 y.length ∧ (y.length = [] ↔ Goyang.Lemmas.TypesRangeRfc.chainLengths chain = []) :=
+  Goyang.Lemmas.TypesRangeRfc.resolve_chain_length env fuel root scope t stack y ht h
 
 /-! ## Non-vacuity: concrete schemas on which the hypotheses of the theorems hold
 
@@ -1633,6 +1715,175 @@ example : (resolveTypeF envF 10 mF [leafF, fM] tyF []).errs = [] ∧
 example : litF.digitsOK ∧ litF.ip ≠ [] ∧ litF.fp = none ∧ litF.noLeadingZero :=
   ⟨⟨by decide, by decide⟩, by decide, rfl, by decide⟩
 example : bytesOf "3" = litF.render := by decide +kernel
+
+/-! ### `specResolve_noClaim_iff_loaded`, `resolve_verdict_inside_claim_full` on
+`type enumeration { enum a; enum b; }` (values 0 and 1 are assigned) -/
+def tyN : Stmt := S "n.yang" "type" "enumeration" 2 10 [S "n.yang" "enum" "a" 2 30 [], S "n.yang" "enum" "b" 2 40 []]
+def leafN : Stmt := S "n.yang" "leaf" "l" 2 1 [tyN]
+def n : Stmt := S "n.yang" "module" "n" 1 1 [S "n.yang" "prefix" "pn" 1 10 [], leafN]
+def mN : Mod := ⟨0, n⟩
+def regN : Registry := { mods := [mN], modules := [("n", 0)] }
+
+theorem seqId_regN : SeqId regN := by
+  intro a ha b hb _
+  have ha' : a ∈ [mN] := ha
+  have hb' : b ∈ [mN] := hb
+  rw [List.mem_singleton] at ha' hb'
+  rw [ha', hb']
+theorem mN_mem : mN ∈ regN.mods := List.mem_singleton.mpr rfl
+theorem mN_sch : PartOfSchema regN mN :=
+  ⟨mN, (show Identity.moduleEntries regN = [mN] from rfl) ▸ List.mem_singleton.mpr rfl, IncludesStar.refl _⟩
+theorem inPlace_tyN : InPlace regN (mN, [leafN, n], tyN) :=
+  ⟨mN_mem, List.Mem.head _, List.Mem.tail _ (List.Mem.head _), rfl⟩
+theorem tablesOK_regN : Goyang.Lemmas.Bridge.TablesOK regN := by
+  refine ⟨?_, ?_⟩
+  · intro i hi
+    have hi' : i < 1 := hi
+    match i, hi' with
+    | 0, _ => rfl
+  · intro sub kv hkv
+    cases sub with
+    | false =>
+      have hkv' : kv ∈ [("n", 0)] := hkv
+      rw [List.mem_singleton] at hkv'
+      subst hkv'
+      exact ⟨mN, List.Mem.head _, rfl, rfl⟩
+    | true => exact absurd hkv (by show kv ∉ ([] : List (String × Nat)); exact List.not_mem_nil)
+theorem ok_tyN : ∃ k ls, chainOf regN 10 mN [leafN, n] tyN [] = .ok k ls := by
+  have h : (match chainOf regN 10 mN [leafN, n] tyN [] with | .ok _ _ => true | _ => false) = true := by
+    decide +kernel
+  cases hc : chainOf regN 10 mN [leafN, n] tyN [] with
+  | ok k ls => exact ⟨k, ls, rfl⟩
+  | error => rw [hc] at h; cases h
+  | noClaim w => rw [hc] at h; cases h
+theorem inside_tyN : InsideClaim regN (mN, [leafN, n], tyN) := by
+  obtain ⟨k, ls, h⟩ := ok_tyN
+  exact spec_ok_inside_claim regN seqId_regN 10 mN [leafN, n] tyN [] k ls mN_mem h
+/-- No integer argument is written on the chain (the members have no `value`): `CanonArgs` holds. -/
+theorem canon_tyN : ∀ kind chain, DerivesFrom regN mN [leafN, n] tyN kind chain →
+    Goyang.Lemmas.TypesAgreeFull.CanonArgs chain := by
+  intro kind chain h
+  have hch := Goyang.Lemmas.TypesAgreeFull.derives_builtin (t := tyN) (by decide) h
+  subst hch
+  refine ⟨?_, ?_, ?_⟩
+  · intro es hes e he a ha
+    have h0 : chainEnums [Link.ty mN [leafN, n] tyN] = some [S "n.yang" "enum" "a" 2 30 [], S "n.yang" "enum" "b" 2 40 []] := rfl
+    rw [h0] at hes
+    cases hes
+    simp only [List.mem_cons, List.not_mem_nil, or_false] at he
+    rcases he with rfl | rfl
+    · exact absurd ha (by show (none : Option String) ≠ some a; intro h'; cases h')
+    · exact absurd ha (by show (none : Option String) ≠ some a; intro h'; cases h')
+  · intro bs hbs
+    have h0 : chainBits [Link.ty mN [leafN, n] tyN] = none := rfl
+    rw [h0] at hbs
+    cases hbs
+  · intro f hf
+    have h0 : chainFractionDigits [Link.ty mN [leafN, n] tyN] = none := rfl
+    rw [h0] at hf
+    cases hf
+
+/-- The model resolves it without error to the table a ↦ 0, b ↦ 1 (last member first) … -/
+example : (resolveType regN mN [leafN, n] tyN).2 = [] ∧
+    ((resolveType regN mN [leafN, n] tyN).1.bind (·.enum)).map (·.toInt) = some [([98], 1), ([97], 0)] := by decide +kernel
+/-- … `resolve_verdict_inside_claim_full` applies: its second case holds … -/
+example : ∃ k ls, chainOf regN (specFuel regN) mN [leafN, n] tyN [] = .ok k ls ∧
+    ∀ y, resolveType regN mN [leafN, n] tyN = (some y, []) → AgreesWithFull y (inherit k ls) := by
+  rcases resolve_verdict_inside_claim_full regN (by decide +kernel) (by decide +kernel) mN [leafN, n] tyN
+    inPlace_tyN mN_sch rfl inside_tyN canon_tyN with ⟨_, hno, _⟩ | ⟨k, ls, hc, _, _, hag⟩
+  · exact absurd (Resolvable.builtin (by decide)
+      (by intro ut hut; exact absurd hut (by rw [show tyN.all "type" = [] from rfl]; exact List.not_mem_nil))) hno
+  · exact ⟨k, ls, hc, hag⟩
+/-- … and so does `specResolve_noClaim_iff_loaded` (`TablesOK`, `linkOk`): here the specification makes a claim. -/
+example : ¬ ∃ m ∈ regN.mods, ¬ PartOfSchema regN m := by
+  rintro ⟨m, hm, hn⟩
+  have hm' : m ∈ [mN] := hm
+  rw [List.mem_singleton] at hm'
+  subst hm'
+  exact hn mN_sch
+open Goyang.Lemmas.TypesFuel in
+example : (∃ w, specResolve regN (specFuel regN) mN [leafN, n] tyN [] = .noClaim w) →
+    ∃ k ls, chainOf regN (specFuel regN) mN [leafN, n] tyN [] = .ok k ls ∧ chainInClaim ls = false := by
+  intro h
+  have hiff := specResolve_noClaim_iff_loaded regN tablesOK_regN (by decide +kernel) mN [leafN, n] tyN mN_mem mN_sch
+    (child_below (child_below (self_mem_descendants _) (List.Mem.tail _ (List.Mem.head _))) (List.Mem.head _)) rfl
+    (by
+      intro s hs
+      simp only [List.mem_cons, List.not_mem_nil, or_false] at hs
+      rcases hs with rfl | rfl
+      · exact child_below (self_mem_descendants _) (List.Mem.tail _ (List.Mem.head _))
+      · exact self_mem_descendants _)
+  rcases hiff.mp h with ⟨m, hm, hn, _⟩ | ⟨_, ⟨site, w, hs, hf⟩ | hc⟩
+  · have hm' : m ∈ [mN] := hm
+    rw [List.mem_singleton] at hm'
+    subst hm'
+    exact absurd mN_sch hn
+  · exact absurd hf (inside_tyN site w hs)
+  · exact hc
+/-- `wellLinked_of_linkOk` applies (every loaded module is part of a schema). -/
+example : wellLinked regN = true :=
+  wellLinked_of_linkOk regN (by decide +kernel) (by
+    intro m hm
+    have hm' : m ∈ [mN] := hm
+    rw [List.mem_singleton] at hm'
+    subst hm'
+    exact mN_sch)
+
+/-! ### Outside the canonical form the two readings differ: `enum a { value 010; }`
+
+Go's `ParseInt` reads the argument with base 0 (`010` is octal 8: replayed on the Go code, which also
+reads `0x10` as 16 and `1_0` as 10); the executable specification's `parseIntLit` reads decimal digits
+(10).  So the hypothesis `CanonArgs` of `resolve_verdict_inside_claim_full` cannot be dropped. -/
+def eZ : Stmt := S "z.yang" "enum" "a" 2 30 [S "z.yang" "value" "010" 2 40 []]
+def tyZ : Stmt := S "z.yang" "type" "enumeration" 2 10 [eZ]
+def leafZ : Stmt := S "z.yang" "leaf" "l" 2 1 [tyZ]
+def z : Stmt := S "z.yang" "module" "z" 1 1 [S "z.yang" "prefix" "pz" 1 10 [], leafZ]
+def mZ : Mod := ⟨0, z⟩
+def regZ : Registry := { mods := [mZ], modules := [("z", 0)] }
+
+open Goyang.Lemmas.TypesAssign Goyang.Lemmas.TypesStrBridge in
+/-- The model resolves `value 010` without error to 8; the executable specification assigns 10. -/
+theorem noncanonical_value_disagrees :
+    ((resolveType regZ mZ [leafZ, z] tyZ).2 = [] ∧
+      ((resolveType regZ mZ [leafZ, z] tyZ).1.bind (·.enum)).map (·.toInt) = some [([97], 8)]) ∧
+    assignValues "value" (-2147483648) 2147483647 (tyZ.all "enum") = some [("a", 10)] ∧
+    ¬ CanonInt "010" := by
+  refine ⟨by decide +kernel, ?_, ?_⟩
+  · have h3 : parseIntLit "010" = some 10 := by
+      rw [parseIntLit_digits "010" ['0', '1', '0'] (by simp) (by simp) (by simp) (by simp)]; rfl
+    have hr : readMembers "value" (tyZ.all "enum") = some [("a", some 10)] := by
+      show readMembers "value" [eZ] = _
+      unfold readMembers
+      have h2 : eZ.argOf? "value" = some "010" := rfl
+      simp [h2, h3]
+      rfl
+    rw [assignValues_eq, hr]
+    rfl
+  · rintro ⟨neg, ds, h, _, hd, hz⟩
+    have h0 : ("010" : String).toList = ['0', '1', '0'] := by simp
+    rw [h0] at h
+    cases neg with
+    | true =>
+      simp only [if_true, List.cons_append, List.nil_append, List.cons.injEq] at h
+      exact absurd h.1 (by decide)
+    | false =>
+      simp only [Bool.false_eq_true, if_false, List.nil_append] at h
+      subst h
+      rcases hz with hz | hz
+      · cases hz
+      · exact hz rfl
+
+/-! ### `resolve_range_denotes`, `resolve_range_within_base`, `resolve_length_denotes` need only an error-free
+resolution: they apply to the shadowing example (`type t` resolves to `int32`, shown by `decide` above);
+chains with `range` / `length` statements at two levels are evaluated at the end of Lemmas/TypesRangeRfc.lean. -/
+example (y : YType) (h : resolveTypeF env 10 mM [leaf, lst, con, m] ty [] = { ty := some y, errs := [] })
+    (hk : y.kind = "int32") :
+    Goyang.Spec.Range.Within (Goyang.Lemmas.Range.abs y.range) (Goyang.Lemmas.Range.abs Goyang.Model.Range.int32Range) :=
+  resolve_range_within_base env 10 mM [leaf, lst, con, m] ty [] y (by decide) h false 0 _
+    (by rw [hk]; exact .int .int32)
+/-- canonical integer arguments: `CanonInt` -/
+example : Goyang.Lemmas.TypesStrBridge.CanonInt "3" ∧ Goyang.Lemmas.TypesStrBridge.CanonInt "-12" :=
+  ⟨⟨false, ['3'], by simp, by simp, by simp, Or.inr (by simp)⟩, ⟨true, ['1', '2'], by simp, by simp, by simp, Or.inr (by simp)⟩⟩
 
 end Ex
 
